@@ -20,6 +20,9 @@ LOOKUPS = {"get", "degree", "in_degree", "out_degree", "has_edge", "has_node", "
 ORDER_FREE = {"sorted", "Counter", "frozenset", "set", "sum", "len", "min", "max", "any", "all"}
 
 
+_SAFE_CALLEES: Set[str] = set()  # set per analyse() call: label builders that are checked themselves
+
+
 def _value_names(expr: ast.AST, bound: Dict[str, ast.AST]) -> List[Tuple[str, ast.AST]]:
     """names occurring in *value position* of expr, with comprehension targets
     resolved to the value names of what they iterate over"""
@@ -42,7 +45,7 @@ def _value_names(expr: ast.AST, bound: Dict[str, ast.AST]) -> List[Tuple[str, as
             # == / in / is: only a truth value leaves
         elif isinstance(n, ast.Call):
             f = n.func
-            if isinstance(f, ast.Attribute) and f.attr in LOOKUPS:
+            if isinstance(f, ast.Attribute) and (f.attr in LOOKUPS or f.attr in _SAFE_CALLEES):
                 go(f.value, bound)  # arguments are lookup keys
             elif isinstance(f, ast.Name) and f.id in ("len", "isinstance", "id", "type"):
                 pass
@@ -83,11 +86,13 @@ def _value_names(expr: ast.AST, bound: Dict[str, ast.AST]) -> List[Tuple[str, as
 
 
 def analyse(fi: FuncInfo, id_params: Set[str], id_collections: Set[str], graph_names: Set[str] = frozenset({"G", "g", "self.G"}),
-            extra_ok: Set[str] = frozenset()):
+            extra_ok: Set[str] = frozenset(), safe_callees: Set[str] = frozenset()):
     """returns (leaks, unordered, facts)
        leaks:     [(node, message)]  node id flowing by value into the result / being ordered
        unordered: [(node, message)]  list filled in neighbour-iteration order reaching the result unsorted"""
     fn = fi.node
+    _SAFE_CALLEES.clear()
+    _SAFE_CALLEES.update(safe_callees)
     defs = local_defs(fn, into_nested=False)
     tainted: Set[str] = set(id_params)
     colls: Set[str] = set(id_collections)
